@@ -21,8 +21,8 @@ CHECKS = {
          "Sound static analysis of a structural necessary condition: every accepting path of the type-1/type-5 Verify passes bytes.Equal(FullEvaluate(own key, suite, type||nonce||context||keyid from the token's own fields), token.Authenticator)=true on whole values. Quantifies over paths (all tokens). Does not prove the PRF separates inputs.",
          "Trusts go/ssa dominators, this checker's term evaluator, circl oprf FullEvaluate, bytes.Equal.",
          "DESIGN.md §4 C10"),
- "C09": ("who-may-write queries + guard-shape (dominance/post-dominance) + rejection enumeration on SSA",
-         "Sound static analysis of the premises of an inductive invariant: the per-client maps are written only in FinalizeIndex, clients are registered only behind VerifyRequest's checks, nothing deletes/replaces bindings; the only map-dependent rejection is ok && stored != presented over the same key/value as the single update, which every accepted call performs after the lookup; every error return is a decode failure, unknown client or that guard and no binding update precedes it. The induction over histories is a paper argument (DESIGN.md), not machine-checked.",
+ "C09": ("who-may-write queries + guard-shape (dominance/post-dominance) + rejection enumeration + key-encoding terms on SSA",
+         "Sound static analysis of the premises of an inductive invariant: the per-client maps are written only in FinalizeIndex, clients are registered only behind VerifyRequest's checks, nothing deletes/replaces bindings; the only map-dependent rejection is ok && stored != presented over the same key/value as the single update, which every accepted call performs after the lookup; every error return is a decode failure, unknown client or that guard and no binding update precedes it; every key and byte-string value of the maps is hex.EncodeToString/string of the identifier (an injective encoding, so two identifiers share an entry only if equal). The induction over histories is a paper argument (DESIGN.md), not machine-checked.",
          "Trusts go/ssa dominators, this checker's term/fact extraction; the user-supplied cache returns what was Put; calls are sequential.",
          "DESIGN.md §4 C09"),
  "C13": ("guard-dominance + decoder read-sequence + value-flow of the entropy reader on SSA; AST agreement with GOROOT crypto/ecdsa (legacy math/big path)",
@@ -30,7 +30,7 @@ CHECKS = {
          "Trusts go/ssa, this checker's extractors and AST matcher, GOROOT's crypto/ecdsa source as reference, io.ReadFull/math/big/cryptobyte as documented.",
          "DESIGN.md §4 C13"),
  "C08": ("symbolic term binding of the returned value + sibling agreement of context terms on SSA",
-         "Sound static analysis of structural necessary conditions: the value FinalizeIndex returns is exactly HKDF-SHA-384(unblinded key, salt = clientKey, info = IssuerOriginAlias) as a term over its first three arguments only (no cache/ClientState/anonymous-origin input), read with a checked ReadFull; client, attester-blind and attester-unblind contexts are the same term and the issuer's differs; the issuer blinds the request key with the index key of the unpadded origin; the attester accepts one request key per client blind. Does not prove that the blind cancels (group algebra) or collision resistance.",
+         "Sound static analysis of structural necessary conditions: the value FinalizeIndex returns is exactly HKDF-SHA-384(unblinded key, salt = clientKey, info = IssuerOriginAlias) as a term over its first three arguments only (no cache/ClientState/anonymous-origin input), read with a checked ReadFull; client, attester-blind and attester-unblind contexts are the same term and the issuer's differs; the issuer blinds the request key with the index key of the unpadded origin; the attester accepts one request key per client blind; the origin whose index key is used is the origin the request names (unpadding strips exactly the trailing zeros - rule shared with C20). Does not prove that the blind cancels (group algebra) or collision resistance.",
          "Trusts go/ssa, this checker's term evaluator, x/crypto/hkdf and crypto/elliptic as documented.",
          "DESIGN.md §4 C08"),
  "C12": ("symbolic layout/binding terms on SSA; switch-table extraction from phi edges; AST agreement with GOROOT crypto/ecdsa",
@@ -38,11 +38,11 @@ CHECKS = {
          "Trusts go/ssa, this checker's term evaluator and AST matcher, circl expander/HashToField, crypto/elliptic, GOROOT crypto/ecdsa source.",
          "DESIGN.md §4 C12"),
  "C15": ("symbolic layout/binding terms with in-place mutation history on SSA; reachability to entropy sources; mutable-global query and argument read-only query over may-write summaries",
-         "Sound static analysis of structural necessary conditions: the blinding scalar is SetBytes(SHA-512(blind||0x00||context)[:32]) - the same term at all three sites, assembled by appending to a fresh buffer (never to an argument's slice); blind/unblind/blinded-sign shapes; wrappers forward nil contexts and the right argument slots; no entropy source is reachable and no mutable package-level state is touched outside sync.Once. Does not prove the algebra or acceptance by a standard verifier.",
+         "Sound static analysis of structural necessary conditions: the blinding scalar is SetBytes(SHA-512(blind||0x00||context)[:32]) - the same term at all three sites, assembled by appending to a fresh buffer (never to an argument's slice); blind/unblind/blinded-sign shapes; wrappers forward nil contexts and the right argument slots; no entropy source is reachable and no mutable package-level state is touched outside sync.Once; the two fixed-base tables agree with the standard library's (built once, completely, before use - shared with C14). Does not prove the algebra or acceptance by a standard verifier.",
          "Trusts go/ssa, VTA call graph with Once.Do resolved at the site, this checker's term evaluator and effect summaries, crypto/sha512.",
          "DESIGN.md §4 C15"),
  "C16": ("may-write effect analysis (parameter-sensitive, one-level field-sensitive bottom-up summaries over SSA incl. third-party bodies; reviewed std table) + whole-tail provenance of append bases",
-         "Sound static analysis of structural necessary conditions: no exported function may write (store, copy, append in place, callee) the memory of a byte-slice argument unless it is a documented destination; in-place appends onto struct fields require every store into that field to be a whole-tail view (flow-sensitive within the function, module-wide otherwise); exported methods write receiver state only through the encoding cache, their own mutators or safe appends. Does not decide value-level independence from spare capacity beyond the C03 len-bounds obligations.",
+         "Sound static analysis of structural necessary conditions: no exported function may write (store, copy, append in place, callee) the memory of a byte-slice argument unless it is a documented destination; in-place appends onto struct fields require every store into that field to be a whole-tail view (flow-sensitive within the function, module-wide otherwise); exported methods write receiver state only through the encoding cache, their own mutators or safe appends; an append onto a truncated view x.F[:k] of a caller-visible field (exported, or the raw encoding Marshal hands out) is a violation everywhere, because it rebuilds the field inside the storage of its previous value. Does not decide value-level independence from spare capacity beyond the C03 len-bounds obligations.",
          "Trusts go/ssa, VTA call graph, effects.go, the reviewed std write table (printed in evidence).",
          "DESIGN.md §4 C16"),
  "C17": ("may-write effect analysis over concurrent entry points (shared roots = receiver and key parameters, package-level variables); computed exemptions for sync.Once and constructor-forced lazy fields; result-aliasing query",
@@ -54,7 +54,7 @@ CHECKS = {
          "Trusts go/types, go/ssa, this checker's term and reader extractors, the layout table in c04.go (from the repository's struct comments and constants), cryptobyte.",
          "DESIGN.md §4 C04"),
  "C05": ("slot/index discipline on SSA: natural loops, dominance facts on slot stores, symbolic binding of lookup/key-match/evaluate arguments, emit-layout term with branch arms, error-discipline query, backward slice of the Evaluate guards for loop-carried state (iteration independence)",
-         "Sound static analysis of structural necessary conditions: one slot per request written only at the request's own index with either an empty value or the matched issuer's successful result; lookup by the request's type and last byte of the key id; a failing issuer neither ends the search nor the batch; present/absent status derived from slot emptiness with the same index; decoder mirrors the layout; the constructor registers every issuer argument under its own type; the basic issuers' Evaluate succeed only behind their decode/evaluate/encode success edges with no error dropped. Does not decide that a present entry finalizes to a valid token (C01/C02).",
+         "Sound static analysis of structural necessary conditions: one slot per request written only at the request's own index with either an empty value or the matched issuer's successful result; lookup by the request's type and last byte of the key id; a failing issuer neither ends the search nor the batch; present/absent status derived from slot emptiness with the same index; decoder mirrors the layout; the constructor registers every issuer argument under its own type; the basic issuers' Evaluate succeed only behind their decode/evaluate/encode success edges with no error dropped; the list's QUIC-varint length prefix is exact (rules shared with C19). Does not decide that a present entry finalizes to a valid token (C01/C02).",
          "Trusts go/ssa dominators/loops, this checker's term evaluator; registered issuers behave like the repository's (non-empty response on success).",
          "DESIGN.md §4 C05"),
  "C18": ("symbolic ASN.1 layout terms (cryptobyte builder trees with OIDs by value), checked read sequences, return-term bindings on SSA, EncapKey decoder/encoder field agreement",
